@@ -1,4 +1,4 @@
-//go:build verif_harness
+//go:build verif_harness && cgo
 
 package crypto
 
